@@ -51,7 +51,8 @@ theorem subframe_lpc (cfg : SubCfg) (xs : List Int) (bps : Nat) (log : List OEve
     ∃ rep, readSubframe xs.length bps (s.bits ++ k) = .ok (rep, k) ∧ rep.samples = xs ∧
       rep.bitLen = s.bits.length ∧ s.WF := by
   obtain ⟨coefs, shift, precision, errors, prc, hmem, hce, hsearch, rfl⟩ := hs
-  obtain ⟨hc1, hc32, hp1, hp15, hs0, hs15, hcr⟩ := hlog _ hmem
+  obtain ⟨hc1, hc24, hp1, hp15, hs0, hs15, hcr⟩ := hlog _ hmem
+  have hc32 : coefs.length ≤ 32 := by unfold maxLpcOrder at hc24; omega
   obtain ⟨hel, hef, hed⟩ := computeError_spec coefs shift.toNat xs errors hce
   obtain ⟨hwf, hrd⟩ := residual_of_search errors coefs.length cfg.maxP prc hef
     (by rw [hel]; omega) (by rw [hel]; exact hlen) hmax (by omega) hsearch k
